@@ -134,13 +134,14 @@ Section Outcome.
     let '(s', outs', evs', _) := replicate_loop C me k comps s outs evs in
     same_tr s s' /\ (forall x, In x outs -> In x outs') /\ (forall e, In e evs -> In e evs') /\
     ((forall x, In x comps -> exists d m, In (d, m) outs' /\ is_tok (comp_name x) m = true)
-     \/ exists k', In (EvRaise me k') evs').
+     \/ exists k', In (EvRaise me k') evs') /\
+    (forall d m, In (d, m) outs' -> In (d, m) outs \/ exists x, In x comps /\ is_tok (comp_name x) m = true).
   Proof.
     induction comps as [|x rest IH]; intros s outs evs; simpl.
-    - split; [apply same_tr_refl|]. split; auto. split; auto. left. intros x [].
+    - split; [apply same_tr_refl|]. split; auto. split; auto. split; [left; intros x []|auto].
     - destruct (psort _) as [|[c0 q0] r0].
       { split; [apply same_tr_refl|]. split; auto. split; [intros e He; apply in_or_app; auto|].
-        right. exists 3. apply in_or_app. right. left. reflexivity. }
+        split; [|auto]. right. exists 3. apply in_or_app. right. left. reflexivity. }
       match goal with |- context [on_request C me s ?b ?sp ?rq ?p ?v ?cc ?fp ?cn ?h ?e] =>
         pose proof (on_request_outcome false me s b sp rq p v cc fp cn h e) as O;
         destruct (on_request C me s b sp rq p v cc fp cn h e) as [[[s1 o1] e1] raised] end.
@@ -148,26 +149,30 @@ Section Outcome.
       destruct D as [(A & (d & m & -> & T) & ST)|[(A & B & AR & D)|(A & B & ST & k' & I)]]; [|discriminate|]; subst raised.
       + specialize (IH s1 (outs ++ [(d, m)]) e1).
         destruct (replicate_loop C me k rest s1 (outs ++ [(d, m)]) e1) as [[[s' outs'] evs'] b].
-        destruct IH as (ST' & IO & IE & D). split; [eapply same_tr_trans; eauto|].
+        destruct IH as (ST' & IO & IE & D & OG). split; [eapply same_tr_trans; eauto|].
         split; [intros y Hy; apply IO; apply in_or_app; auto|].
         split; [intros e He; apply IE; rewrite E; apply in_or_app; auto|].
-        destruct D as [D|D]; [left|right; exact D].
-        intros y [<-|Hy]; auto. exists d, m. split; auto. apply IO. apply in_or_app. right. left. reflexivity.
-      + split; auto. split; [intros y Hy; apply in_or_app; auto|].
+        split.
+        * destruct D as [D|D]; [left|right; exact D].
+          intros y [<-|Hy]; auto. exists d, m. split; auto. apply IO. apply in_or_app. right. left. reflexivity.
+        * intros d1 m1 I. destruct (OG d1 m1 I) as [I1|(y & Hy & Ty)]; [|right; exists y; auto].
+          apply in_app_or in I1 as [I1|[I1|[]]]; auto. inversion I1; subst. right. exists x. auto.
+      + subst o1. rewrite app_nil_r. split; auto. split; auto.
         split; [intros e He; rewrite E; apply in_or_app; auto|].
-        right. exists k'. rewrite E. apply in_or_app. auto.
+        split; [|auto]. right. exists k'. rewrite E. apply in_or_app. auto.
   Qed.
 
   Definition active (n : Z) : Prop := a_comps (agent C n) <> [] /\ neighbors C n <> [].
 
   Lemma replicate_trivial me s k : ~ active me ->
     let '(s', outs, evs, _) := replicate C me s k in
-    outs = [] /\ s_rhosts s' = s_rhosts s /\ exists rh, In (EvDone me rh) evs.
+    outs = [] /\ s_rhosts s' = s_rhosts s /\ (exists rh, In (EvDone me rh) evs)
+    /\ (s_inprog s' = s_inprog s \/ s_inprog s' = fold_left tracker_add (own_names C me) (s_inprog s)).
   Proof.
-    intros NA. unfold replicate. destruct (a_comps (agent C me)) as [|x0 r0] eqn:Ec.
-    - split; auto. split; auto. eexists. left. reflexivity.
+    intros NA. unfold replicate, own_names. destruct (a_comps (agent C me)) as [|x0 r0] eqn:Ec.
+    - split; auto. split; auto. split; [eexists; left; reflexivity|auto].
     - destruct (neighbors C me) eqn:En.
-      + split; auto. split; auto. eexists. left. reflexivity.
+      + split; auto. split; auto. split; [eexists; left; reflexivity|auto].
       + exfalso. apply NA. split; [rewrite Ec|rewrite En]; discriminate.
   Qed.
 
@@ -175,16 +180,19 @@ Section Outcome.
     let '(s', outs, evs, _) := replicate C me s k in
     s_rhosts s' = s_rhosts s /\ s_inprog s' = fold_left tracker_add (own_names C me) (s_inprog s) /\
     ((forall c, In c (own_names C me) -> exists d m, In (d, m) outs /\ is_tok c m = true)
-     \/ exists k', In (EvRaise me k') evs).
+     \/ exists k', In (EvRaise me k') evs) /\
+    (forall d m, In (d, m) outs -> exists c, In c (own_names C me) /\ is_tok c m = true).
   Proof.
     intros [A1 A2]. unfold replicate, own_names. destruct (a_comps (agent C me)) as [|x0 r0] eqn:Ec; [contradiction|].
     destruct (neighbors C me) eqn:En; [contradiction|].
     set (s1 := set_inprog s _).
     pose proof (replicate_loop_out me k (x0 :: r0) s1 [] []) as R.
     destruct (replicate_loop C me k (x0 :: r0) s1 [] []) as [[[s' outs] evs] b].
-    destruct R as ((T1 & T2) & _ & _ & D). split; [rewrite T2; reflexivity|]. split; [rewrite T1; reflexivity|].
-    destruct D as [D|D]; [left|right; exact D].
-    intros c Hc. apply in_map_iff in Hc as [x [<- Hx]]. apply D. exact Hx.
+    destruct R as ((T1 & T2) & _ & _ & D & OG). split; [rewrite T2; reflexivity|]. split; [rewrite T1; reflexivity|].
+    split.
+    - destruct D as [D|D]; [left|right; exact D].
+      intros c Hc. apply in_map_iff in Hc as [x [<- Hx]]. apply D. exact Hx.
+    - intros d m I. destruct (OG d m I) as [[]|(x & Hx & T)]. exists (comp_name x). split; auto. apply in_map. exact Hx.
   Qed.
 
   (* ---- summary for the protocol handler *)
